@@ -28,8 +28,9 @@ func init() {
 }
 
 type cfBuilder struct {
-	mark int
-	nv   int
+	mark  int
+	nv    int
+	tight bool // no marks after the nested statement: the jump's block ends the enclosing blocks
 }
 
 func (b *cfBuilder) m(extra ...*E) *S {
@@ -62,6 +63,9 @@ func cfIsSwitch(f string) bool { return len(f) > 6 && (f[:6] == "switch" || f[:7
 
 // after appends the trailing mark of a block (after a bare jump it is unreachable code, which Go accepts)
 func (b *cfBuilder) after(ss []*S) []*S {
+	if b.tight {
+		return ss
+	}
 	return append(ss, b.m())
 }
 
@@ -130,6 +134,9 @@ func (b *cfBuilder) wrap(form string, inner []*S) []*S {
 	}
 	out := []*S{pre}
 	out = append(out, body...)
+	if b.tight {
+		return out
+	}
 	return append(out, post)
 }
 
@@ -169,15 +176,19 @@ func c06Family(depth int, stride int) []*Prog {
 			if jump == "break" && !inLoop && !inSwitch {
 				continue
 			}
-			for _, guarded := range []bool{false, true} {
+			for _, variant := range []int{0, 1, 2, 3} {
+				guarded := variant&1 == 1
+				tight := variant&2 == 2
 				n++
 				if stride > 1 && n%stride != 0 {
 					continue
 				}
-				b := &cfBuilder{}
+				b := &cfBuilder{tight: tight}
 				var inner []*S
 				j := &S{K: jump}
-				if guarded {
+				if guarded && tight {
+					inner = []*S{b.m(), {K: "if", Cond: chooseIs1(), Then: []*S{b.m()}, HasElse: true, Else: []*S{j}}}
+				} else if guarded {
 					inner = []*S{b.m(), {K: "if", Cond: chooseIs1(), Then: []*S{j}}, b.m()}
 				} else {
 					inner = []*S{b.m(), j}
@@ -186,7 +197,7 @@ func c06Family(depth int, stride int) []*Prog {
 				for i := len(chain) - 1; i >= 0; i-- {
 					inner = b.wrap(chain[i], inner)
 				}
-				id := fmt.Sprintf("cf/%v/%s/%v", chain, jump, guarded)
+				id := fmt.Sprintf("cf/%v/%s/guarded=%v/tight=%v", chain, jump, guarded, tight)
 				p := &Prog{ID: id, Pkg: "main", Main: "Main", NeedChoice: true}
 				p.Funcs = []*Func{{Name: "F", Body: inner}, {Name: "Main", Body: []*S{{K: "expr", E: &E{K: "call", Fn: "F"}, NRes: 0}, {K: "print", Ln: true, Exprs: []*E{{K: "str", Ty: TString, S: "end"}}}}}}
 				progs = append(progs, p)
